@@ -133,21 +133,14 @@ def r1(F, R):
     idx = [i for i, ty in enumerate(ex_fn.locals[1:ex_fn.arg_count + 1]) if ty == "std::option::Option<usize>"]
     if len(idx) != 1:
         raise Unverifiable("limit parameter of execute")
-    arg = t["args"][idx[0]]
-    l = op_local(arg)
-    cp = A.canon_place(run, {"l": l, "p": []}) if l is not None else None
-    sd = run.single_def(cp["l"]) if cp is not None else None
-    ok = False
-    if sd and sd[1] == "call" and callee_is(sd[2], r"Option::<.*>::or$"):
-        a, b = sd[2]["args"]
-        fa = A.slice_back(run, [a]).fields
-        fb = A.slice_back(run, [b]).fields
-        ok = ("runner::basic::Cli", "concurrency") in fa and ("runner::basic::Basic", "max_concurrent_scenarios") in fb \
-            and ("runner::basic::Cli", "concurrency") not in fb
-        R.check(ok, "cli-over-builder", sd[0], "cli.concurrency.or(max_concurrent_scenarios)",
-                f"the concurrency limit is not `cli.concurrency.or(builder value)`: first operand reads {sorted(n for _, n in fa)[:4]}, second {sorted(n for _, n in fb)[:4]}")
-    else:
-        R.violation("cli-over-builder", s, "the limit passed to execute is not the result of `cli.concurrency.or(..)`")
+    # decided on the deep path table of Runner::run: the limit handed to execute is the CLI value when given, the builder's otherwise
+    run2, paths2, H = roles.run_merge_table(F)
+
+    def value_of(p):
+        e = H["execute"](p)
+        return e[2][idx[0]] if e is not None and idx[0] < len(e[2]) else None
+    roles.check_option_merge(R, "cli-over-builder", run2, paths2, H["cli"]("concurrency"), H["builder"]("max_concurrent_scenarios"), value_of,
+                             "cli.concurrency.or(max_concurrent_scenarios)")
     # the limit initialises the slot counter
     S = slot_local(ex)
     inits = [(site, st) for site, kind, st in slot_writes(ex, S) if kind == "init"]
